@@ -14,15 +14,24 @@ Oracle = the property on the real code, independent of the Lean model:
 from collections import OrderedDict
 from fractions import Fraction as F
 from math import gcd
-import json, math, random, warnings
+import json, math, os, random, warnings
 from lib.framework import Property
 from . import kinetics_gen as kg
 from .util import *
 
 ELEMENTS = [1, 6, 7, 8, 17]
 LETTERS = 'ABCDEFGHJKLMNPQRSTUVWXYZ'
-ERR_FACTOR = 300        # accepted global error of the delegated integrator: ERR_FACTOR * (atol + rtol * max|c|)
-BOUND_FACTOR = 1e3      # accepted excursion outside [0, ub]: BOUND_FACTOR * (atol + rtol * scale)
+# Sampled accuracy of the delegated integrator, PER COMPONENT i and output time (measured distribution: notes/C06.md):
+#     |c_i - ref_i| <= ACC_F * (atol + rtol*|ref_i|)  +  ACC_G * rtol * max_j |ref_j|
+# the second term is the propagated global error of the dominant species into a minor one (LSODA controls the LOCAL error per
+# component; the global error of a species fed by a much larger one scales with the larger one).
+ACC_F = float(os.environ.get('C06_ACC_F', 50))
+ACC_G = float(os.environ.get('C06_ACC_G', 5))
+# accepted excursion below 0 / above the elemental bound ub_i:  BOUND_F * (atol + rtol*ub_i)   (true value 0 resp. <= ub_i)
+BOUND_F = float(os.environ.get('C06_BOUND_F', 50))
+# accepted drift of an element total T = sum_j a_j c_j:  DRIFT_F * sum_j |a_j| (atol + rtol*max_t|c_j|)
+DRIFT_F = float(os.environ.get('C06_DRIFT_F', 50))
+N_TOUT = 9
 
 
 def _fr(v):
@@ -46,6 +55,13 @@ def _merge(pairs):
     for k, v in pairs:
         d[k] = d.get(k, 0) + v
     return [[k, v] for k, v in d.items()]
+
+
+def log_times(rng, tmin, tmax, n=N_TOUT):
+    """n output times, log-spaced from tmin to tmax (the slowest time scale) with jitter, strictly increasing"""
+    lo, hi = math.log10(tmin), math.log10(tmax)
+    ts = sorted({float('%.3g' % 10 ** (lo + (hi - lo) * (i + rng.uniform(-0.3, 0.3)) / (n - 1))) for i in range(n)})
+    return [t for t in ts if t > 0]
 
 
 class Net:
@@ -298,7 +314,7 @@ class C06(Property):
 
     def __init__(self):
         self._cache = {}
-        self.ratios = []          # observed |error| / (atol + rtol*scale) of the sampled integrations (calibration / notes)
+        self.meas = {'acc': [], 'acc_rest': [], 'neg': [], 'over': [], 'drift': []}     # calibration data (tools/harness/c06_calibrate.py)
 
     # ---- generation -------------------------------------------------------------------------
     def _kdy(self, rng, wide=False):
@@ -370,22 +386,23 @@ class C06(Property):
         c0 = [0.0 if rng.random() < 0.35 else float('%.4g' % (10 ** rng.uniform(-3, 1))) for _ in subs]
         if not any(c0):
             c0[0] = 1.0
-        tscale = 1.0 / (max(ks) ** rng.random() * min(ks) ** (1 - rng.random()))
-        tout = sorted(float('%.3g' % (tscale * 10 ** rng.uniform(-3, 3))) for _ in range(3))
+        tout = log_times(rng, 0.01 / max(ks), rng.uniform(1, 5) / min(ks))        # up to the slowest time scale
         tol = rng.choice([1e-6, 1e-8, 1e-9, 1e-10])
         return {'kind': 'linear', 'subs': subs, 'rxns': net.rxns, 'c0': c0, 'tout': tout, 'atol': tol * rng.choice([1, 1e-2]),
                 'rtol': tol, 'integrator': rng.choice([None, 'scipy']), 'units': rand_units(rng, len(subs)) if rng.random() < 0.4 else None}
 
     def _bimol_case(self, rng, tier):
-        which = rng.choice(['irrev', 'irrev', 'rev', 'rev', 'dimer'])
+        which = rng.choice(['irrev', 'irrev', 'rev', 'rev', 'dimer', 'dimer', 'equal', 'equal', 'equal_rev'])
         kf = float('%.4g' % (10 ** rng.uniform(-3, 4)))
         kb = float('%.4g' % (10 ** rng.uniform(-3, 3)))
         major = float('%.4g' % (10 ** rng.uniform(-2, 1)))
-        minor = float('%.4g' % (major * rng.uniform(0.05, 0.9)))
+        minor = float('%.4g' % (major * (rng.uniform(0.05, 0.9) if rng.random() < 0.8 else 1 - 10 ** rng.uniform(-4, -1.3))))
+        if which in ('equal', 'equal_rev'):                     # [A]0 = [B]0: binary_irrev is 0/0 there, the solution is 1/(1/c0 + k t)
+            minor = major
         prod = rng.choice([0.0, 0.0, float('%.3g' % (10 ** rng.uniform(-3, 0)))])
         swap = rng.random() < 0.5                               # which of A, B is the abundant one
-        rate = kf * major + (kb if which == 'rev' else 0)
-        tout = sorted(float('%.3g' % (10 ** rng.uniform(-2.5, 1.2) / rate)) for _ in range(3))
+        rate = kf * major + (kb if which in ('rev', 'equal_rev') else 0)
+        tout = log_times(rng, 0.003 / rate, 30 / rate)
         tol = rng.choice([1e-6, 1e-8, 1e-9, 1e-10])
         return {'kind': 'bimol', 'which': which, 'kf': kf, 'kb': kb, 'major': major, 'minor': minor, 'prod': prod, 'swap': swap,
                 'tout': tout, 'atol': tol * rng.choice([1, 1e-2]), 'rtol': tol, 'integrator': rng.choice([None, 'scipy']),
@@ -401,7 +418,7 @@ class C06(Property):
         if not any(c0):
             c0[0] = 1.0
         kmax = max(float(_fr(r['param'])) for r in net.rxns)
-        tout = sorted(float('%.3g' % (10 ** rng.uniform(-2, 2) / kmax)) for _ in range(3))
+        tout = log_times(rng, 0.01 / kmax, 100 / kmax)
         tol = rng.choice([1e-6, 1e-8, 1e-9])
         return {'kind': 'traj', 'subs': subs, 'rxns': net.rxns, 'c0': c0, 'tout': tout, 'atol': tol, 'rtol': tol,
                 'integrator': rng.choice([None, 'scipy']), 'units': rand_units(rng, len(subs)) if rng.random() < 0.4 else None}
@@ -738,29 +755,53 @@ class C06(Property):
             return 'first output row %r is not the initial state %r' % (yout[0].tolist(), want0.tolist())
         return names, xout, yout, rsys, cb
 
+    def _atol(self, case):
+        """the requested absolute tolerance in molar: with a unit registry it applies to the internal numbers (mol/m3)"""
+        return case['atol'] * (1e-3 if case.get('units') else 1.0)
+
+    def _accurate(self, case, name, t, got, ref, refmax):
+        """per-component accuracy of one output value; None or a failure text"""
+        atol, rtol = self._atol(case), case['rtol']
+        err = abs(got - ref)
+        local = atol + rtol * abs(ref)
+        self.meas['acc'].append(err / local)
+        self.meas['acc_rest'].append(max(0.0, err - ACC_F * local) / (rtol * refmax))
+        tol = ACC_F * local + ACC_G * rtol * refmax
+        if not err <= tol:
+            return ('integrated %s(t=%g) = %r, exact solution %r: |diff| %.3g > %.3g = %g*(atol + rtol*|ref|) + %g*rtol*max|ref| '
+                    '(atol %g, rtol %g)' % (name, t, got, ref, err, tol, ACC_F, ACC_G, atol, rtol))
+        return None
+
     def _admissible(self, case, subs, names, yout, c0d):
-        """concentrations >= -tol, <= elemental bound (1 + tol); element totals and charge kept"""
+        """along the trajectory, per component: c_i >= -tol_i, c_i <= ub_i + tol_i with tol_i = BOUND_F*(atol + rtol*ub_i);
+        element totals and charge kept"""
         order = {k: i for i, k in enumerate(names)}
         subs_o = sorted(subs, key=lambda s: order[s[0]])
         c0 = [c0d[k] for k in names]
         ub = indep_bounds(subs_o, c0)
-        scale = max(c0)
-        tol = BOUND_FACTOR * (case['atol'] + case['rtol'] * scale)
+        atol, rtol = self._atol(case), case['rtol']
+        cmax = [max(abs(float(row[i])) for row in yout) for i in range(len(names))]
         for row in yout:
             for i, v in enumerate(row):
                 if not math.isfinite(v):
                     return 'non-finite concentration of %s' % names[i]
-                if v < -tol:
-                    return 'concentration of %s becomes negative: %r (tolerance %g)' % (names[i], v, tol)
-                if v > ub[i] * (1 + BOUND_FACTOR * case['rtol']) + tol:
-                    return 'concentration of %s = %r exceeds its elemental upper bound %r' % (names[i], v, ub[i])
+                unit = atol + rtol * (ub[i] if math.isfinite(ub[i]) else cmax[i])
+                self.meas['neg'].append(max(0.0, -v) / unit)
+                self.meas['over'].append(max(0.0, v - ub[i]) / unit)
+                if v < -BOUND_F * unit:
+                    return 'concentration of %s becomes negative: %r (tolerance %g = %g*(atol + rtol*bound))' % (names[i], v, BOUND_F * unit, BOUND_F)
+                if v > ub[i] + BOUND_F * unit:
+                    return 'concentration of %s = %r exceeds its elemental upper bound %r (tolerance %g)' % (names[i], v, ub[i], BOUND_F * unit)
             keys = sorted({e for _, comp in subs_o for e, _ in comp})
             for e in keys:
-                t0 = sum(dict(map(tuple, comp)).get(e, 0) * c for (_, comp), c in zip(subs_o, c0))
-                t1 = sum(dict(map(tuple, comp)).get(e, 0) * c for (_, comp), c in zip(subs_o, row))
-                w = sum(abs(dict(map(tuple, comp)).get(e, 0)) * abs(c) for (_, comp), c in zip(subs_o, c0))
-                if abs(t1 - t0) > ERR_FACTOR * (case['atol'] * len(names) + case['rtol'] * w):
-                    return 'total of composition key %d drifts from %r to %r' % (e, t0, t1)
+                a = [dict(map(tuple, comp)).get(e, 0) for _, comp in subs_o]
+                t0 = sum(aj * c for aj, c in zip(a, c0))
+                t1 = sum(aj * c for aj, c in zip(a, row))
+                unit = sum(abs(aj) * (atol + rtol * cm) for aj, cm in zip(a, cmax))
+                if unit > 0:
+                    self.meas['drift'].append(abs(t1 - t0) / unit)
+                    if abs(t1 - t0) > DRIFT_F * unit:
+                        return 'total of composition key %d drifts from %r to %r (tolerance %g)' % (e, t0, t1, DRIFT_F * unit)
         return None
 
     def _expm_ref(self, M, c0, t):
@@ -784,14 +825,13 @@ class C06(Property):
         names, xout, yout, rsys, cb = r
         M = first_order_M(names, rxns)
         c0 = [c0d[k] for k in names]
-        tol = ERR_FACTOR * (case['atol'] + case['rtol'] * max(c0))
         for t, row in zip(xout[1:], yout[1:]):
             ref = self._expm_ref(M, c0, float(t))
+            refmax = max(abs(float(v)) for v in ref)
             for i, k in enumerate(names):
-                self.ratios.append(abs(row[i] - ref[i]) * ERR_FACTOR / tol)
-                if abs(row[i] - ref[i]) > tol:
-                    return ('integrated %s(t=%g) = %r, exp(M t) c0 gives %r (|diff| %.3g > %.3g = %g*(atol + rtol*max c0))'
-                            % (k, t, float(row[i]), float(ref[i]), abs(row[i] - ref[i]), tol, ERR_FACTOR))
+                f = self._accurate(case, k, t, float(row[i]), float(ref[i]), refmax)
+                if f:
+                    return f + ' [exp(M t) c0]'
         f = self._admissible(case, subs, names, yout, c0d)
         if f:
             return f
